@@ -184,7 +184,8 @@ def monitors(cfg, obs_list):
 
 
 def _job(j):
-    cfg, nreq, devs, props = j
+    cfg, nreq, devs, props = j[:4]
+    root = tuple(j[4]) if len(j) > 4 else ()
     st = Stats()
     vio = {}
 
@@ -198,7 +199,9 @@ def _job(j):
                 vio.setdefault((prop, clause, i > 0), []).append((ctx.choices, cause, i))
         if len(st.samples) < 1 and sum(1 for c in ctx.choices if c) >= 2:
             st.samples.append(dict(cfg=cfg, requests=[dict(script=o.letters, result=str(o.result[:2]), tx=[round(t, 6) for t, _, _ in o.txs]) for o in obs]))
-    explore(run, deviations=devs, depth=nreq * (cfg['R'] + 2) + nreq, on_exec=on_exec)
+    # a non-default choice inside the root prefix is one of the allowed deviations
+    explore(run, deviations=devs - sum(1 for c in root if c), depth=nreq * (cfg['R'] + 2) + nreq - len(root),
+            on_exec=on_exec, root_prefix=root)
     out = []
     for (prop, clause, later), lst in vio.items():
         lst.sort(key=lambda x: (sum(1 for c in x[0] if c), len(x[0])))
@@ -239,6 +242,20 @@ def explore_sessions(tier, seed, props, light=False):
                     jobs.append((cfg, 3, 2, props))
                 if R == 1:
                     jobs.append((dict(cfg, neighbour=True), 2, 2, props))
+    if tier != 'thorough' and not light:
+        # one level deeper for two requests (a fourth-round finding needed it): 3 deviations
+        for tr in ('udp', 'tcp'):
+            for ka in (False, True):
+                jobs.append((dict(transport=tr, ka=ka, T=1, R=1), 2, 3, props))
+    # split the larger jobs by the answer to the very first transmission (the subtrees are independent executions)
+    split = []
+    for j in jobs:
+        if j[2] >= 3:
+            nl = len(letters_for(j[0]['transport']))
+            split += [j + ((i,),) for i in range(nl)]
+        else:
+            split.append(j)
+    jobs = split
     k = seed % len(jobs)
     jobs = jobs[k:] + jobs[:k]
     total = Stats()
